@@ -23,6 +23,8 @@ inductive Op where
   /-- the same call with real evaluation of references, macros and constants (Layer 2) -/
   | ecall (sel : Sel) (enter : List ScopeArg) (args : List Val) (kwargs : AList String Val)
   | getb (sel : Sel) (σ : Scope) (inherit : Bool)
+  /-- `get_bindings('scope/spelling')`: the spelling is resolved like every other name -/
+  | getbq (q : Sel) (σ : Scope) (inherit : Bool)
   | addHook (h : Hook)
   | finalize
   | clear (constants : Bool)
@@ -115,6 +117,12 @@ mutual
             ({ st with calls := se.calls, log := se.log, operative := se.operative }, .err e)
     | .getb sel σ inherit =>
         (st, .kvs (if inherit then getBindings st.config sel σ else getBindingsStrict st.config sel σ))
+    | .getbq q σ inherit =>
+        match st.registry.getMatch q with
+        | .ambiguous _ => (st, .err .keyError)
+        | .none => (st, .err .valueError)
+        | .one sel _ =>
+          (st, .kvs (if inherit then getBindings st.config sel σ else getBindingsStrict st.config sel σ))
     | .addHook h => ({ st with hooks := st.hooks ++ [h] }, .ok)
     | .finalize => match st.finalize with
         | .ok st' => (st', .ok) | .error e => (st, .err e)
